@@ -101,7 +101,7 @@ theorem C03_lazy (ops : List Op) (vals : List Val) (err : Option Err) (orc : Lis
     `buffer n` n+2, `parmap` 2·concurrency+3.
     Imported (not proved here): the last two constants are the look-ahead bounds of the thread-backed
     operators (`lookahead`, the guard of the oracle-driven prefetch in `next`), i.e. C08's
-    `Fifo.C08_parmap_lookahead` for `parmap` and worker + queue + consumer = n+2 for `Buffer`.
+    `Fifo.C08_parmap_lookahead` for `parmap` and `Buffer.C08_buffer_lookahead` (Props/C08Buffer.lean) for `buffer`.
     What is proved here is that these bounds compose additively along the chain and that the
     ordinary generators add nothing (`head`: one element). -/
 theorem C03_incremental (ops : List Op) (hone : ∀ op ∈ ops, op.oneOne = true)
